@@ -760,6 +760,10 @@ class Exec:
             return Agg(ev[0], ev[1], vals, 'ctor', names)
         if len(segs) >= 2 and segs[-1][:1].isupper() and segs[-2][:1].isupper():
             return Agg(segs[-2], segs[-1], vals, 'ctor', names)
+        if len(segs) == 1 and segs[0][:1].isupper() and kind == 'ctor':
+            fv = self.enums.find_variant(segs[0])
+            if fv is not None:
+                return Agg(fv[0], fv[1], vals, 'ctor', names)
         return Agg(segs[-1] if segs else h, None, vals, kind, names)
 
     def upvar_types(self, f):
